@@ -47,6 +47,13 @@ CHECKS = {
  "C06": ("exploration", "history recording + full value digest comparison across a size ladder and four read paths",
          "Value sizes 0..64KiB around static thresholds and dynamic VLogPercentile thresholds; every read path compared by digest during the run, after it and after re-open.",
          "GC excluded (C15); sizes up to 64 KiB.", "4/C06"),
+
+ "C27": ("exploration", "runtime monitor: call-order reference model of WriteBatch vs state read back at every (key, version)",
+         "Random WriteBatch call sequences in three modes (NewWriteBatch, NewWriteBatchAt, NewManagedWriteBatch with alternating versions), 1-2000 calls cutting 0-40 internal transactions; after Flush every (key, version) must hold the last call's effect.",
+         "Compaction disabled so every version stays readable; sampled sequences.", "4/C27"),
+ "C28": ("exploration", "runtime monitor: statement predicate vs real validation over boundary ladders; accepted-size boundary sweep",
+         "Part A compares err!=nil of Set/Delete/Get with the statement's predicate over key/value/namespace boundary ladders on disk, in-memory and namespace configurations and checks that rejected calls leave the transaction unaffected; part B sweeps every accounted size in the last 64 bytes below the largest accepted transaction (n=1..12 entries, 3 memtable sizes, small and 19-digit commit timestamps) and the last counts below the count limit: Commit must not return ErrTxnTooBig.",
+         "Ladders, not all sizes; memtable 8 MiB in part A so single writes fit.", "4/C28"),
 }
 
 def hooks_commits():
